@@ -96,6 +96,13 @@ class CallMixin(object):
             mem = self.find_member(fn.cls, '__call__')
             if mem and mem[0] == 'method':
                 return self.call_function(mem[2], [fn] + list(args), kwargs, node)
+        if isinstance(fn, Unknown) and fn.why == 'callback-argument':
+            # a callable handed to our callback by the external caller (rmtree's onerror
+            # receives the function that failed): opaque, but it is one of the caller's own
+            n = self.emit('ext', node, {'fn': '?callable-argument', 'args': list(args),
+                                        'kwargs': dict(kwargs)})
+            self.route_raise(n, ['OSError'])
+            return Call('?callable-argument', tuple(args), tuple(sorted(kwargs.items())), n)
         return self.unresolved_call(fn, args, kwargs, node)
 
     def call_alternatives(self, fn, args, kwargs, node):
@@ -453,6 +460,7 @@ class CallMixin(object):
             data['result'] = res
             self.route_raise(n, prims.MAY_RAISE.get(q, ()))
             self.drain_generators(args, kwargs, node)
+            self.run_callbacks(args, kwargs, node)
             return res
         if q in prims.PROBES:
             follow, role = prims.PROBES[q]
@@ -480,8 +488,55 @@ class CallMixin(object):
                 self.route_raise(n, ['UnicodeDecodeError'])
             if q in prims.SOFT_RAISE_CALLS:
                 self.route_raise(n, prims.SOFT_RAISE_CALLS[q], soft=True)
+            if q.split('.')[0] == 're' and args and q.split('.')[-1] in (
+                    'sub', 'subn', 'match', 'search', 'fullmatch', 'compile', 'split',
+                    'findall', 'finditer'):
+                # a pattern assembled from run-time text that is not re.escape()d may be
+                # no valid regular expression
+                def raw_text(t):
+                    if isinstance(t, Const):
+                        return False
+                    if isinstance(t, Call) and t.fn == 're.escape':
+                        return False
+                    if isinstance(t, (Bin, Fmt, Phi)):
+                        return any(raw_text(c) for c in children(t))
+                    return True
+                if raw_text(args[0]):
+                    self.route_raise(n, ['Exception'])
             self.drain_generators(args, kwargs, node)
+            self.run_callbacks(args, kwargs, node)
         return res
+
+    def run_callbacks(self, args, kwargs, node):
+        """Repo callables handed to an external function (onerror=, key=, callbacks) may
+        be called by it: their bodies are analysed on a side branch, with unknown
+        arguments."""
+        cbs = []
+        for v in list(args) + list(kwargs.values()):
+            for a in terms_of(v):
+                if isinstance(a, (FuncRef, Bound, LambdaRef)) and a not in cbs:
+                    cbs.append(a)
+        if not cbs or self.cur is None:
+            return
+        start = self.cur
+        end = self.join_node(node, 'after-callbacks')
+        self.goto(end)
+        snap = dict(self.frame.env.vars)
+        for cb in cbs:
+            fi = cb.func
+            if fi in self.active:
+                continue
+            a = getattr(fi.node, 'args', None)
+            npos = len(a.posonlyargs + a.args) - len(a.defaults) if a is not None else 0
+            if isinstance(cb, Bound):
+                npos -= 1
+            self.cur = start
+            self.frame.env.vars = dict(snap)
+            self.call(cb, [Unknown('callback-argument')] * max(npos, 0), {}, node)
+            if self.cur is not None:
+                self.goto(end)
+        self.frame.env.vars = snap
+        self.land(end)
 
     # builtins with semantics -------------------------------------------------
     def ext_isinstance(self, args, kwargs, node):
